@@ -352,13 +352,17 @@ pub fn object_assign(
 
     for source in args.iter().skip(1) {
         if let JsValue::Object(src_ref) = source {
-            let src = src_ref.borrow();
-            for (key, prop) in src.properties.iter() {
-                if prop.enumerable() {
-                    target_ref
-                        .borrow_mut()
-                        .set_property(key.clone(), prop.value.clone());
-                }
+            // Read the source first: it may be the target itself
+            let entries: Vec<_> = {
+                let src = src_ref.borrow();
+                src.properties
+                    .iter()
+                    .filter(|(_, prop)| prop.enumerable())
+                    .map(|(key, prop)| (key.clone(), prop.value.clone()))
+                    .collect()
+            };
+            for (key, value) in entries {
+                target_ref.borrow_mut().set_property(key, value);
             }
         }
     }
